@@ -142,6 +142,7 @@ type executor struct {
 	heapLocals map[string]Value
 	curLoop  *loopInfo
 	freeVars map[string]Value
+	inSpec   bool // executing code on behalf of a specification (no obligations)
 	idxSeen  map[int]bool
 }
 
